@@ -42,6 +42,9 @@ func c22(r *sim.R) *sim.Violation {
 	case "tcp-handshake":
 		req.proto, rsp.proto = 6, 6
 		req.sport, req.dport = sim.Pick(t, classPorts), sim.Pick(t, classPorts)
+		if t.Bool() {
+			req.sport, req.dport = uint16(t.Draw(65536)), uint16(t.Draw(65536)) // the handshake decides whatever the ports
+		}
 		req.aux = []byte{0x02, 0xc2}[t.Draw(2)]
 		rsp.aux = []byte{0x12, 0x52}[t.Draw(2)]
 	case "icmp-echo":
@@ -63,6 +66,11 @@ func c22(r *sim.R) *sim.Violation {
 		}
 		rsp.proto = req.proto
 		req.sport, req.dport = sim.Pick(t, classPorts), sim.Pick(t, classPorts)
+		if t.Bool() {
+			// any client port of the ephemeral range against any server port below it (the class
+			// boundaries are covered by classPorts, the bulk of the 2^32 pairs by uniform draws)
+			req.sport, req.dport = uint16(32768+t.Draw(32768)), uint16(1+t.Draw(32767))
+		}
 		// decisive only if exactly one side uses an ephemeral port (>= 32768) and it is the client
 		decisive = req.sport >= 32768 && req.dport < 32768
 	}
